@@ -64,7 +64,8 @@ def dyadic_cases(draw, tier="quick"):
     return {"contracts": specs, "deposit": deposit, "prior": prior, "targets": targets, "measure": measure,
             "thr": thr, "fractional": draw(st.booleans()), "cash_entry": draw(st.booleans()),
             "fees": [0.0, 0.0], "rate": 0.0, "markup": 0.0, "ops": [],
-            "open_order": draw(st.permutations(list(range(n)))), "request_order": draw(st.permutations(list(range(n))))}
+            "open_order": draw(st.permutations(list(range(n)))), "request_order": draw(st.permutations(list(range(n)))),
+            "via_space": draw(st.sampled_from([False, False, True]))}
 
 
 @st.composite
@@ -93,7 +94,8 @@ def free_cases(draw, tier="quick"):
             "targets": targets, "measure": measure, "thr": thr, "fractional": draw(st.booleans()),
             "cash_entry": draw(st.booleans()), "fees": list(draw(B.fee_schedules())), "rate": 0.0, "markup": 0.0,
             "moves": [list(m) for m in moves], "ops": [],
-            "open_order": draw(st.permutations(list(range(n)))), "request_order": draw(st.permutations(list(range(n))))}
+            "open_order": draw(st.permutations(list(range(n)))), "request_order": draw(st.permutations(list(range(n)))),
+            "via_space": draw(st.sampled_from([False, False, True]))}
 
 
 def expected_trades(lab, case, nlv, exact):
@@ -194,8 +196,16 @@ def run_filter(case, exact):
     if case["cash_entry"]:
         cs = cs + [lab.cash]
         ws = ws + [0.25]
-    reb = Rebalancing(contracts=cs, allocation=ws, measure=case["measure"], margin=case["thr"],
-                      fractional=case["fractional"], time=lab.now + B.timedelta(seconds=5))
+    if case.get("via_space") and cs:
+        # the same request built the way TradingEnv builds it: through a portfolio space
+        import numpy as np
+        from tradingenv.spaces import BoxPortfolio
+        space = BoxPortfolio(cs, low=-1e9, high=1e9, as_weights=(case["measure"] == "weight"), fractional=case["fractional"], margin=case["thr"])
+        reb = space.make_rebalancing_request(np.array(ws, dtype=float), lab.now + B.timedelta(seconds=5), br)
+        res.tag("request-built-by-a-portfolio-space")
+    else:
+        reb = Rebalancing(contracts=cs, allocation=ws, measure=case["measure"], margin=case["thr"],
+                          fractional=case["fractional"], time=lab.now + B.timedelta(seconds=5))
     q_before = [lab.code_q(i) for i in range(n)]
     try:
         trades = reb.make_trades(br)
